@@ -307,6 +307,27 @@ def r5(run, ctx, f, cfg, stop, kill):
                       'without signalling the remaining children and the worker: the final '
                       'SIGKILL is lost and the stop path waits for a worker that never dies',
                       construct='child failure skips the worker')
+    # the child lookup fails with psutil's NoSuchProcess (which is NOT an OSError): some
+    # handler around the per-child send must catch exactly that
+    from sa.raises import caught_by
+    for cn in childs:
+        hs_ = [c2.nodes[i] for i, lab in c2.succ[cn.id] if lab == 'exc'
+               and c2.nodes[i].kind == 'except']
+
+        def names(h):
+            t = h.ast.type
+            if t is None:
+                return ['*']
+            elts = t.elts if isinstance(t, ast.Tuple) else [t]
+            return [(dotted(e) or '?').split('.')[-1] for e in elts]
+        run.check('R5', any(caught_by(names(h), 'NoSuchProcess') or
+                            'NoSuchProcess' in names(h) or 'Error' in names(h) for h in hs_),
+                  'a child that vanished (NoSuchProcess) is caught at the per-child send', g,
+                  cn.ast, 'no handler around the per-child send catches NoSuchProcess (it is '
+                  "psutil's own exception, not an OSError): one vanished child aborts the whole "
+                  'fan-out, kill_process takes the escaping exception for "the worker is gone", '
+                  'and the worker itself is never signalled',
+                  construct='NOSUCHPROCESS-NOT-CAUGHT')
     for cn in childs:
         hdr = [h for h in c2.nodes if h.kind == 'iter' and cn.id in c2.branch_nodes(h, 'true')]
         after_exc = [c2.nodes[i] for i, lab in c2.succ[cn.id] if lab == 'exc'
